@@ -137,6 +137,11 @@ func (e *Engine) encodeFunction(name string) (fe *FuncEnc, err error) {
 			t := fe.evalClause(f, rq, st, st, nil, nil, fn.Pos())
 			fe.assume(tBool(true), t)
 		}
+		for _, df := range fe.con.Defines {
+			t := fe.evalClause(f, df, st, st, nil, nil, fn.Pos())
+			fe.assume(tBool(true), t)
+			fe.assumes["definition (conservative): "+df.Text] = true
+		}
 		f.entry = st.clone()
 	}
 	if fe.con != nil && len(fe.con.Requires) > 0 {
